@@ -7,10 +7,12 @@ CONSTANTS
   CGS = 5
   Depth = 9
   MaxReplies = 6
+  MaxReplies2 = 3
+  MaxDup = 1
   MaxForeign = 1
   MaxLate = 1
   QuorumSet = {"One", "N2", "Maj", "All"}
-  Triples = {{1, 2, 3}, {13, 14, 1}}
+  Triples = {{1, 2, 13}}
   SplitSizes = {2, 3}
   Record = FALSE
   KnownMask = {"C05-merge-bypasses-target", "C05-mixed-kinds-first-record-dictates", "C05-equal-counter-scratchpad-first-wins"}
